@@ -102,6 +102,13 @@ def run(facts, rep, tier, ctx):
         if "tolerates exactly" in d_ or "tolerated unconditionally" in d_:
             n += 1
             rep.ob("R18.1", ob_["fn"], d_, ob_["ok"], ob_["detail"], ob_["loc"])
+    # ... and every other mutating path operation answers Ok only after a mutating backend call succeeded: on the read-only
+    # view there is none, so no argument combination (same source and destination, root, empty name) is "a no-op that worked"
+    scr2 = _R("c2")
+    _PR(facts, _W(facts, False), D).ok_needs_effect(scr2, "C")
+    for ob_ in scr2.obligations:
+        n += 1
+        rep.ob("R18.1", ob_["fn"], ob_["key"].split("|")[2], ob_["ok"], ob_["detail"], ob_["loc"])
     rep.floor("mutator obligations", n, 11)
     # ---- R18.2
     adt = facts.adts.get("impls::embedded::EmbeddedFS")
@@ -363,6 +370,44 @@ def run(facts, rep, tier, ctx):
     for ob in scratch.obligations:
         if "embedded" in ob["fn"]:
             rep.ob("R18.4", ob["fn"], ob["key"].split("|")[2], ob["ok"], ob["detail"], ob["loc"])
+    # lengths are carried as u64 from data.len() to the metadata: no narrower integer on the way (index value type, casts)
+    import re as _re
+    NARROW = ("u8", "u16", "u32", "i8", "i16", "i32")
+    if adt is not None:
+        narrow_fields = [("%s: %s" % (f["name"], f["ty"])) for v in adt["variants"] for f in v["fields"]
+                         if _re.search(r"[<, ](%s)[>,]" % "|".join(NARROW), f["ty"])]
+        rep.ob("R18.4", TY, "the index stores lengths at full width", not narrow_fields, "" if not narrow_fields else
+               "%s: a length of 4 GiB or more does not fit; metadata().len differs from the embedded file's size" % "; ".join(narrow_fields),
+               adt["span"])
+    for b2 in facts.bodies:
+        if not b2.file.endswith("impls/embedded.rs"):
+            continue
+        tr2 = get_tracer(facts, b2)
+        for blk in b2.blocks:
+            if blk.cleanup:
+                continue
+            for st2 in blk.stmts:
+                if st2.kind == "assign" and st2.rv.kind == "cast" and str(getattr(st2.rv, "ty", "")) in NARROW:
+                    src = norm(tr2.rvalue(st2.rv, frozenset()))
+                    if any(x[0] == "call" and isinstance(x[1], str) and sname(x[1]) == "len" for x in walk(src)):
+                        rep.fail("R18.4", D.owner_id(b2) if hasattr(D, "owner_id") else b2.id, "no length is narrowed",
+                                 "a length is cast to %s: sizes of 2^%s bytes or more wrap" % (st2.rv.ty, st2.rv.ty[1:]), st2.line)
+    # the handle of open_file is the embedded bytes behind a cursor at offset 0: nothing is consumed, skipped or repositioned
+    # before it is handed out
+    b3 = o.get("open_file")
+    if b3 is not None:
+        touched = []
+        made = 0
+        for cb3 in inter.code_bodies(b3):
+            for s3 in inter.sites(cb3):
+                if s3.short == "Cursor::new":
+                    made += 1
+                elif s3.short.startswith("Cursor::") or s3.short.split("::")[0] in ("Read", "Seek", "BufRead", "Write"):
+                    touched.append(s3.short)
+        rep.ob("R18.3", b3.id, "open_file hands out an untouched Cursor::new(data)", made >= 1 and not touched,
+               "" if made >= 1 and not touched else
+               ("open_file calls %s on the cursor before returning it: the handle does not start at offset 0 of the embedded bytes / "
+                "does not cover all of them" % ", ".join(sorted(set(touched)))) if touched else "no Cursor::new found in open_file", b3.span)
     # panics
     kk = c13.sites_for(facts, rep, ctx["V"], "R18.p", lambda r: r.file.endswith("impls/embedded.rs"))
     rep.floor("panic sites in impls/embedded.rs", kk, 6)
